@@ -154,6 +154,9 @@ deriving DecidableEq, Repr, Inhabited
 
 /-! ### Reading the old store -/
 
+/-- A pytree without tracers / graphs among its leaves. -/
+def refFree (v : List Tok) : Bool := !(v.any (fun t => match t with | .ref _ | .gref _ => true | _ => false))
+
 def Tok.isRef : Tok → Bool
   | .ref _ => true
   | _ => false
@@ -573,7 +576,7 @@ def optTok (pats : List Pattern) (S : Store) : Nat → Tok → St → R (List To
       | some (.merge fn x lit) =>
         let (fn', st) ← mapToks (optTok pats S fuel) fn st
         let (x', st) ← mapToks (optTok pats S fuel) x st
-        if lit.any (fun t => match t with | .ref _ | .gref _ => true | _ => false) then throw (.unsupported "untransformed literal contains tracers") else
+        if !refFree lit then throw (.unsupported "untransformed literal contains tracers") else
         -- `tracer.signature.python.call(f, [x, lit])`: no kwargs, `get_additional_dependencies()` (empty outside `depend_on`)
         let nb := st.nodes.length
         let st := st.pushNode ⟨.value, .app { head := .call, pre := [fn'], args := [x', lit], kwargs := [], deps := [], out := [.ref 0] }⟩
